@@ -8,26 +8,30 @@
 EXTENDS Requests, IOUtils
 
 Trace == ndJsonDeserialize(IOEnv.KB_TRACE)
-VARIABLES l, viol
-tvars == <<req, l, viol>>
+VARIABLES l, viol, mk     \* mk: the metric name of the current MetricsReg.tla schedule has been created
+tvars == <<req, l, viol, mk>>
 E == Trace[l]
 Is(e) == l <= Len(Trace) /\ E.e = e
 V(cond, name) == IF cond \/ (\E v \in viol : v[1] = name) THEN {} ELSE {<<name, l>>}
 
-TInit == l = 1 /\ viol = {} /\ req = [h |-> "none"]
+TInit == l = 1 /\ viol = {} /\ req = [h |-> "none"] /\ mk = FALSE
 TReq ==
     /\ Is("Req") /\ l' = l + 1 /\ req' = E.req
     /\ viol' = viol \cup V(E.outcome \in {"response", "error"}, "Answered")
                     \cup V(E.live, "StillLive")
                     \cup V(E.metric_panics = 0, "NoMetricPanic")
                     \cup (IF MustReject(E.req) THEN V(E.outcome = "error", "Validated") ELSE {})
+    /\ UNCHANGED mk
 TMetric ==
     /\ Is("Metric") /\ l' = l + 1
     /\ viol' = viol \cup V(E.n = 1, "MetricLabelsConsistent")
-    /\ UNCHANGED req
-TMetricPanic == /\ Is("MetricPanic") /\ l' = l + 1 /\ viol' = viol \cup V(FALSE, "NoMetricPanic") /\ UNCHANGED req
-TReset == /\ Is("Reset") /\ l' = l + 1 /\ UNCHANGED <<req, viol>>
-TNext == TReq \/ TMetric \/ TMetricPanic \/ TReset
+    /\ UNCHANGED <<req, mk>>
+TMetricPanic == /\ Is("MetricPanic") /\ l' = l + 1 /\ viol' = viol \cup V(FALSE, "NoMetricPanic") /\ UNCHANGED <<req, mk>>
+\* schedules of MetricsReg.tla on the real client: a lookup misses exactly while the name is unknown; creating it never panics
+TMLookup == /\ Is("MLookup") /\ l' = l + 1 /\ viol' = viol \cup V(E.miss = ~mk, "MetricLookupIsSpec") /\ UNCHANGED <<req, mk>>
+TMCreate == /\ Is("MCreate") /\ l' = l + 1 /\ mk' = TRUE /\ viol' = viol \cup V(~E.panic, "NoMetricPanic") /\ UNCHANGED req
+TReset == /\ Is("Reset") /\ l' = l + 1 /\ mk' = FALSE /\ UNCHANGED <<req, viol>>
+TNext == TReq \/ TMetric \/ TMetricPanic \/ TMLookup \/ TMCreate \/ TReset
 TSpec == TInit /\ [][TNext]_tvars
 TraceAccepted == TLCGet("stats").diameter - 1 = Len(Trace)
 NoViol(name) == \A v \in viol : v[1] # name
@@ -36,4 +40,5 @@ M_StillLive == NoViol("StillLive")
 M_NoMetricPanic == NoViol("NoMetricPanic")
 M_Validated == NoViol("Validated")
 M_MetricLabelsConsistent == NoViol("MetricLabelsConsistent")
+M_MetricLookupIsSpec == NoViol("MetricLookupIsSpec")
 =============================================================================
